@@ -57,20 +57,37 @@ pub struct ConnectionStats;
 //@include contracts/shared/wire_format_specs.rs
 //@include contracts/shared/ack_specs.rs
 //@include contracts/shared/client_status_specs.rs
+//@include contracts/shared/client_ack_specs.rs
 //@include contracts/shared/client_glue_specs.rs
 
 impl ConnectionStats {
     // statistics only (floating point, never read by the protocol): no contract
     #[verifier::external_body]
     pub fn received_packet(&mut self, bytes: u64) { unimplemented!() }
+    #[verifier::external_body]
+    pub fn acked_packet(&mut self, sent_at: Duration, current_time: Duration) { unimplemented!() }
 }
 
-/// rule D8: the `Packet::Ack` arm of RenetClient::process_packet (BTreeMap::range, floating-point rtt) is outside Verus' subset.
-/// Nothing is concluded about it beyond what this signature states: it may change anything in the client.
+/// rule D18 -- ASSUMED: the loop `for (&sequence, _) in self.sent_packets.range(range) { new_acks.push(sequence) }` as a whole, i.e. std's
+/// `BTreeMap::range` over a half-open range: the keys inside the range, ascending, each once, appended to `new_acks`.  std panics when
+/// start > end: kept as a precondition.  (Any other range type does not type-check against this summary: undecided, never an alarm.)
 #[verifier::external_body]
-pub fn process_packet_ack_arm_unverified(c: &mut RenetClient, ack_ranges: Vec<Range<u64>>)
-    ensures final(c).client_wf(), RenetClient::status_step(old(c).connection_status, final(c).connection_status),
+pub fn collect_acked_in_range(sent_packets: &BTreeMap<u64, PacketSent>, range: Range<u64>, new_acks: &mut Vec<u64>)
+    requires range.start <= range.end,
+    ensures
+        final(new_acks)@.len() >= old(new_acks)@.len(),
+        final(new_acks)@.subrange(0, old(new_acks)@.len() as int) == old(new_acks)@,
+        forall|j: int| old(new_acks)@.len() <= j < final(new_acks)@.len() ==>
+            sent_packets@.contains_key(#[trigger] final(new_acks)@[j]) && range.start <= final(new_acks)@[j] < range.end,
+        forall|a: int, b: int| old(new_acks)@.len() <= a < b < final(new_acks)@.len() ==> final(new_acks)@[a] < final(new_acks)@[b],
+        forall|q: u64| sent_packets@.contains_key(q) && range.start <= q < range.end ==>
+            exists|j: int| old(new_acks)@.len() <= j < final(new_acks)@.len() && #[trigger] final(new_acks)@[j] == q,
 { unimplemented!() }
+
+/// rule D19: the round-trip-time estimate (floating point: `as_secs_f64`, `f64::EPSILON`, `* 0.875 + * 0.125`) is outside Verus' subset.
+/// It is handed only `self.rtt`; nothing else can change.  `rtt` is a statistic, never read by the protocol.
+#[verifier::external_body]
+pub fn update_rtt_unverified(rtt: &mut f64, current_time: Duration, sent_at: Duration) { unimplemented!() }
 
 // ---- callees: contracts proved on the real bodies in U1, U4, U5, U8, U13 ----
 impl Packet {
@@ -98,6 +115,12 @@ impl ReceiveChannelReliable {
 //@endfn
 }
 impl SendChannelReliable {
+//@stub renet/src/channel/reliable.rs SendChannelReliable::process_message_ack
+//@specfile contracts/shared/SendChannelReliable.process_message_ack.spec
+//@endfn
+//@stub renet/src/channel/reliable.rs SendChannelReliable::process_slice_message_ack
+//@specfile contracts/shared/SendChannelReliable.process_slice_message_ack.spec
+//@endfn
 //@stub renet/src/channel/reliable.rs SendChannelReliable::send_message
 //@ret r
 //@specfile contracts/shared/SendChannelReliable.send_message.spec
@@ -129,6 +152,9 @@ impl RenetClient {
 //@endfn
 //@stub renet/src/remote_connection.rs RenetClient::disconnect_with_reason
 //@specfile contracts/shared/RenetClient.disconnect_with_reason.spec
+//@endfn
+//@stub renet/src/remote_connection.rs RenetClient::acked_largest
+//@specfile contracts/shared/RenetClient.acked_largest.spec
 //@endfn
 //@stub renet/src/remote_connection.rs RenetClient::add_pending_ack
 //@specfile contracts/shared/RenetClient.add_pending_ack.spec
@@ -211,7 +237,8 @@ impl RenetClient {
 //@fn renet/src/remote_connection.rs RenetClient::process_packet
 //@safety C06
 //@attr #[verifier::loop_isolation(false)]
-//@replacearm /Packet::Ack \{ ack_ranges, \.\. \} => \{/ => process_packet_ack_arm_unverified(self, ack_ranges);
+//@summarize 4 => collect_acked_in_range(&self.sent_packets, $CALLARGS, &mut new_acks);
+//@cut /let rtt = \(self\.current_time - sent_packet\.sent_at\)\.as_secs_f64\(\);/ .. /^\s{20}\}$/ => update_rtt_unverified(&mut self.rtt, self.current_time, sent_packet.sent_at);
 //@hoistexit 1 error: ChannelError
 //@specfile contracts/shared/RenetClient.process_packet.spec
 //@entry
@@ -291,6 +318,129 @@ impl RenetClient {
                     assert(pv == (PacketV::UnreliableSlice { sequence: pv_sequence(pv), channel_id, message_id: slice.message_id,
                         slice_index: slice.slice_index as u64, num_slices: slice.num_slices as u64, payload: slice.payload@ }));
                     assert(forall|m: Seq<u8>| sv_authentic(slice.slice_index as u64, slice.num_slices as u64, slice.payload@, m) == slice.authentic(m));
+                }
+//@after /Packet::Ack \{ ack_ranges, \.\. \} => \{/
+                let ghost rs = ack_ranges@;
+                let ghost rv = ranges_view(rs);
+                proof {
+                    assert(pv == (PacketV::Ack { sequence: pv_sequence(pv), ranges: rv }));
+                    assert(ranges_wf(rs));
+                    assert(Self::send_side_same(s0, s1) && s1.records_ok());
+                }
+//@loop 3 iter=itA3
+                    invariant
+                        itA3.seq() == rs,
+                        strictly_ascending(new_acks@),
+                        forall|j: int| 0 <= j < new_acks@.len() ==> s1.sent_packets@.contains_key(#[trigger] new_acks@[j]) && Self::in_some_range(rv, new_acks@[j]),
+                        itA3.index() > 0 ==> forall|j: int| 0 <= j < new_acks@.len() ==> #[trigger] new_acks@[j] < rs[itA3.index() - 1].end,
+                        itA3.index() == 0 ==> new_acks@.len() == 0,
+                        forall|q: u64, i: int| s1.sent_packets@.contains_key(q) && 0 <= i < itA3.index() && (#[trigger] rs[i]).start <= q < rs[i].end
+                            ==> #[trigger] new_acks@.contains(q),
+//@after /for range in ack_ranges \{/
+                    let ghost k3 = itA3.index() as int;
+                    let ghost na0 = new_acks@;
+                    proof {
+                        assert(range == rs[k3]);
+                        lemma_ranges_wf_at(rs, k3);
+                        if k3 > 0 { lemma_ranges_wf_at(rs, k3 - 1); }
+                    }
+//@loopend 3
+                    proof {
+                        let na1 = new_acks@;
+                        assert(rv[k3] == (rs[k3].start, rs[k3].end));
+                        assert forall|j: int| 0 <= j < na1.len() implies s1.sent_packets@.contains_key(#[trigger] na1[j]) && Self::in_some_range(rv, na1[j]) by {
+                            if j < na0.len() { assert(na1.subrange(0, na0.len() as int)[j] == na1[j]); }
+                        }
+                        assert forall|a: int, b: int| 0 <= a < b < na1.len() implies na1[a] < na1[b] by {
+                            if a < na0.len() { assert(na1.subrange(0, na0.len() as int)[a] == na1[a]); assert(na0[a] < rs[k3 - 1].end); }
+                            if b < na0.len() { assert(na1.subrange(0, na0.len() as int)[b] == na1[b]); assert(na0[a] < na0[b]); }
+                        }
+                        assert forall|j: int| 0 <= j < na1.len() implies #[trigger] na1[j] < rs[k3].end by {
+                            if j < na0.len() { assert(na1.subrange(0, na0.len() as int)[j] == na1[j]); assert(na0[j] < rs[k3 - 1].end); }
+                        }
+                        assert forall|q: u64, i: int| s1.sent_packets@.contains_key(q) && 0 <= i < k3 + 1 && (#[trigger] rs[i]).start <= q < rs[i].end
+                            implies #[trigger] na1.contains(q) by {
+                            if i < k3 {
+                                assert(na0.contains(q));
+                                let j = choose|j: int| 0 <= j < na0.len() && na0[j] == q;
+                                assert(na1.subrange(0, na0.len() as int)[j] == na1[j]);
+                            }
+                        }
+                    }
+//@before /for packet_sequence in new_acks \{/
+                let ghost acks = new_acks@;
+                proof { Self::lemma_only_released_refl(s1); }
+//@loop 5 iter=itA5
+                    invariant
+                        itA5.seq() == acks,
+                        self.client_wf(), self.records_ok(), self.connection_status == s1.connection_status,
+                        Self::recv_side_same(s1, *self), self.send_unreliable_channels@ == s1.send_unreliable_channels@,
+                        self.packet_sequence == s1.packet_sequence && self.channel_send_order@ == s1.channel_send_order@
+                            && self.current_time == s1.current_time && self.available_bytes_per_tick == s1.available_bytes_per_tick,
+                        forall|q: u64| #[trigger] self.sent_packets@.contains_key(q) ==> s1.sent_packets@.contains_key(q) && self.sent_packets@[q] == s1.sent_packets@[q],
+                        forall|q: u64| #[trigger] s1.sent_packets@.contains_key(q) ==> (self.sent_packets@.contains_key(q) <==> !among_first(acks, itA5.index() as int, q)),
+                        Self::send_reliable_only_released(s1, *self),                                   // @C08 process_packet.acks_only_release_messages
+                        forall|x: u64| acks_cover(self.pending_acks@, x) ==> acks_cover(s1.pending_acks@, x),
+//@after /for packet_sequence in new_acks \{/
+                    let ghost k5 = itA5.index() as int;
+                    let ghost s5 = *self;
+                    proof {
+                        assert(packet_sequence == acks[k5]);
+                        assert(!among_first(acks, k5, packet_sequence));
+                    }
+//@after /let reliable_channel = self\.send_reliable_channels\.get_mut\(&channel_id\)\.unwrap\(\);/ 1
+                            let ghost rc0 = s5.send_reliable_channels@[channel_id];
+                            let ghost mids = message_ids@;
+                            proof {
+                                assert(vstd::std_specs::hash::borrowed_key_removed(s5.send_reliable_channels@, s5.send_reliable_channels@.remove(channel_id), &channel_id));
+                                assert(*reliable_channel == rc0);
+                            }
+//@loop 6 iter=itA6
+                                invariant
+                                    itA6.seq() == mids,
+                                    reliable_channel.wf(),
+                                    reliable_channel.next_reliable_message_id == rc0.next_reliable_message_id && reliable_channel.max_memory_usage_bytes == rc0.max_memory_usage_bytes,
+                                    forall|id: u64| #[trigger] reliable_channel.unacked_messages@.contains_key(id) ==> rc0.unacked_messages@.contains_key(id)
+                                        && reliable_channel.unacked_messages@[id] == rc0.unacked_messages@[id],
+//@after /for message_id in message_ids \{/
+                                proof { assert(message_id == mids[itA6.index() as int]); }
+//@after /let reliable_channel = self\.send_reliable_channels\.get_mut\(&channel_id\)\.unwrap\(\);/ 2
+                            let ghost rc0 = s5.send_reliable_channels@[channel_id];
+                            proof {
+                                assert(vstd::std_specs::hash::borrowed_key_removed(s5.send_reliable_channels@, s5.send_reliable_channels@.remove(channel_id), &channel_id));
+                                assert(*reliable_channel == rc0);
+                            }
+//@loopend 5
+                    proof {
+                        assert(Self::send_reliable_only_released(s5, *self));
+                        Self::lemma_only_released_trans(s1, s5, *self);
+                        Self::lemma_records_ok_after_release(s5, *self);
+                        assert forall|q: u64| #[trigger] s1.sent_packets@.contains_key(q) implies
+                            (self.sent_packets@.contains_key(q) <==> !among_first(acks, k5 + 1, q)) by {
+                            if q == acks[k5] { assert(among_first(acks, k5 + 1, q)); }
+                            else if among_first(acks, k5 + 1, q) {
+                                let j = choose|j: int| 0 <= j < k5 + 1 && j < acks.len() && acks[j] == q;
+                                assert(among_first(acks, k5, q));
+                            }
+                        }
+                    }
+//@afterloop 5
+                proof {
+                    assert forall|q: u64| #[trigger] s1.sent_packets@.contains_key(q) implies (self.sent_packets@.contains_key(q) <==> !Self::in_some_range(rv, q)) by {
+                        if Self::in_some_range(rv, q) {
+                            let i = choose|i: int| 0 <= i < rv.len() && (#[trigger] rv[i]).0 <= q < rv[i].1;
+                            assert(rs[i].start <= q < rs[i].end);
+                            assert(acks.contains(q));
+                            let j = choose|j: int| 0 <= j < acks.len() && acks[j] == q;
+                            assert(among_first(acks, acks.len() as int, q));
+                        } else if among_first(acks, acks.len() as int, q) {
+                            let j = choose|j: int| 0 <= j < acks.len() && acks[j] == q;
+                            assert(Self::in_some_range(rv, acks[j]));
+                        }
+                    }
+                    assert(forall|x: u64| acks_cover(s1.pending_acks@, x) ==> x == pv_sequence(pv) || acks_cover(s0.pending_acks@, x)) by { reveal(ack_added); }
+                    assert(Self::send_reliable_only_released(s0, *self));
+                    assert(Self::ack_effect(s0, *self, pv_sequence(pv), rv));
                 }
 //@endfn
 }
